@@ -152,8 +152,8 @@ def logger_rules(chk):
                 if len(st) != 1 or not (st[0][2][0] == "call" and st[0][2][1] == ("glob", "ext:logging.getLogger")):
                     chk.bad(rule, name_setter.qual, "the logger is not obtained by logging.getLogger(name)", node=name_setter.node, stmt="getLogger")
                     ok2 = False
-                elif not none and list(st[0][2][2]) != [("sym", "value")]:
-                    chk.bad(rule, name_setter.qual, "the configured logger name is replaced by %s" % [show(a) for a in st[0][2][2]], node=name_setter.node, stmt="logger-name")
+                elif not none and list(st[0][2][2]) + [v_ for k_, v_ in st[0][2][3] if k_ == "name"] != [("sym", "value")]:
+                    chk.bad(rule, name_setter.qual, "the configured logger name is replaced by %s" % [show(a) for a in list(st[0][2][2]) + [v_ for _k, v_ in st[0][2][3]]], node=name_setter.node, stmt="logger-name")
                     ok2 = False
     # ---- O16.4 / O16.5 ------------------------------------------------------------------
     test_keys = None
@@ -164,8 +164,9 @@ def logger_rules(chk):
             kws = [k.arg for k in node.value.keywords]
             if "value" in kws and "demand" in kws:
                 test_keys, test_name = set(kws), nm
-        elif isinstance(node, ast.Assign) and isinstance(node.value, ast.Dict):
-            ks = [k.value for k in node.value.keys if isinstance(k, ast.Constant)]
+        elif isinstance(node, ast.Assign) and (isinstance(node.value, ast.Dict) or (isinstance(node.value, ast.Call) and len(node.value.args) == 1 and not node.value.keywords and isinstance(node.value.args[0], ast.Dict))):
+            dnode = node.value if isinstance(node.value, ast.Dict) else node.value.args[0]
+            ks = [k.value for k in dnode.keys if isinstance(k, ast.Constant)]
             if "value" in ks and "demand" in ks:
                 test_keys, test_name = set(ks), nm
     r4 = "O16.4"
@@ -192,7 +193,7 @@ def logger_rules(chk):
     ok5 = True
     for inj in (False, True):
         inject_flag["on"] = inj
-        outs = Interp(prog, init, binop_hook=binop_hook, inline=lambda f, ct: False).run()
+        outs = Interp(prog, init, binop_hook=binop_hook, inline=lambda f, ct: f.cls is cls and not f.is_async and f is not init and f.name != "__init__").run()
         chk.count(len(outs))
         for o in outs:
             fm = [e for e in o.path.events if e[0] == "format"]
